@@ -329,15 +329,24 @@ def run(tier, t0):
                     if tr != '(index self.raw.exception_record.exception_information 1)':
                         res.violation('C14.4', 'C14.4|param-index', g, d['st'].get('line'), 'the faulting address is read from %s, not exception_information[1]' % tr)
                     for f in fs:
-                        ge2 = any(c == '(Ge self.raw.exception_record.number_parameters 2)' and v is True for c, v in f)
-                        code = [v for c, v in f if 'from_u32 self.raw.exception_record.exception_code' in c and c.startswith('(discr (Some.0') and not isinstance(v, bool)]
-                        osd = [v for c, v in f if c.endswith(').0)') and c.startswith('(discr (tuple os') and not isinstance(v, bool)]
+                        ge2 = any(re.match(r'^\(Ge .*number_parameters\)? 2\)$|^\(Ge \S*number_parameters 2\)$', c) and v is True for c, v in f)
                         if not ge2:
                             res.violation('C14.4', 'C14.4|param-count', g, d['st'].get('line'), 'exception_information[1] is used on a path without number_parameters >= 2')
-                        if not code or any(c not in AV for c in code):
-                            res.violation('C14.4', 'C14.4|code', g, d['st'].get('line'), 'exception_information[1] is used for an exception code other than access violation / in-page error: %s' % code)
-                        if not osd or (win and any(o != win[0] for o in osd)):
-                            res.violation('C14.4', 'C14.4|os', g, d['st'].get('line'), 'exception_information[1] is used for an OS other than Windows: %s' % osd)
+                    # which OS / which exception codes reach this assignment, whatever the spelling of the case split
+                    import normal
+                    osadt = prog.crate('minidump').adts.get('minidump::system_info::Os')
+                    if osadt:
+                        got, _n = normal.variants_reaching(g, osadt, lambda x: isinstance(x, tuple) and len(x) == 3 and x[0] == 'var' and x[2] == 2, [d['bb']])
+                        if got != {'Windows'}:
+                            res.violation('C14.4', 'C14.4|os', g, d['st'].get('line'), 'exception_information[1] is used for an OS other than Windows: %s' % sorted(got))
+                    if codes:
+                        def is_code(x):
+                            x = normal.simplify(x)
+                            return isinstance(x, tuple) and x[0] == 'vfield' and x[1] == 'Some' and 'from_u32' in show(x) and 'exception_code' in show(x)
+                        got, _n = normal.variants_reaching(g, codes, is_code, [d['bb']])
+                        want = {'EXCEPTION_ACCESS_VIOLATION', 'EXCEPTION_IN_PAGE_ERROR'}
+                        if got != want:
+                            res.violation('C14.4', 'C14.4|code', g, d['st'].get('line'), 'exception_information[1] is used for an exception code other than access violation / in-page error: %s' % sorted(got ^ want)[:6])
                 elif tr != 'self.raw.exception_record.exception_address':
                     res.violation('C14.4', 'C14.4|address-source', g, d['st'].get('line'), 'the crash address is taken from %s' % tr)
         # the Windows AV paths with enough parameters must not fall back to exception_address
